@@ -89,6 +89,18 @@ func init() {
 							case "verify":
 								ok, err := sm2.VerifyHashed(pool[A][:32], pool[A][32:], pool[Bi], pool[Ci], pool[Di])
 								res["ok"], res["err"] = ok, errStr(err)
+							case "signid": // a = priv, b = pub(64) || id, c = nonce stream, d = message
+								pk := pool[Bi]
+								r, s, err := sm2.Sign(pk[64:], pk[:32], pk[32:64], bytes.NewReader(pool[Ci]), pool[A], pool[Di])
+								res["r"], res["s"], res["err"] = B(r), B(s), errStr(err)
+							case "verifyid": // a = pub(64) || id, b = message, c = r, d = s
+								pk := pool[A]
+								ok, err := sm2.Verify(pk[64:], pk[:32], pk[32:64], pool[Bi], pool[Ci], pool[Di])
+								res["ok"], res["err"] = ok, errStr(err)
+							case "za": // a = pub(64) || id
+								pk := pool[A]
+								za, err := sm2.ZA(pk[64:], pk[:32], pk[32:64])
+								res["out"], res["err"] = B(za), errStr(err)
 							case "derive":
 								x, y, err := sm2.DerivePublic(pool[A])
 								res["x"], res["y"], res["err"] = B(x), B(y), errStr(err)
